@@ -53,6 +53,18 @@ def run(ctx, case):
         if ok and w2 != w:
             i = next((k for k in range(min(len(w), len(w2))) if w[k] != w2[k]), min(len(w), len(w2)))
             ctx.fail(f"{t}/reencode-differs", f"{t}: re-encoding the decoded block gives different bytes (len {len(w2)} vs {len(w)}, first difference at byte {i})")
+    if ok and "boundary" not in case and "longrun" not in case:
+        # a decoded block is the caller's: decoding ANOTHER block of the same shape afterwards must not reach into it
+        other = specs.same_shape_other_data(spec)
+        if other is not None:
+            from .. import reftdf
+
+            ok3, _ = ctx.must(lambda: specs.lib_decode(t, spec["format"], reftdf.encode(other)), f"{t}/decode-second-block", f"decoding a second {t} block of the same shape")
+            if ok3:
+                d = specs.first_diff(specs.extract(blk2), want)
+                if d:
+                    ctx.fail(f"{t}/earlier-decode-changed-by-later-decode", f"{t}: after another block of the same shape was decoded, the block decoded first reads {d[0]} = "
+                                                                            f"{str(d[1])[:60]}, it was {str(d[2])[:60]}")
     if ok and t in specs.RLE_TYPES and codec.items(spec) and not case.get("_second_pass") and "boundary" not in case and "longrun" not in case:
         # the same block object, its gap pattern changed in place, must round-trip again to what it holds NOW
         import copy
